@@ -9,6 +9,9 @@ import YashModel.Arith.ShellLemmas
 import YashModel.Arith.RoundTrip
 import YashModel.Arith.Render
 import YashModel.Arith.Spell
+import YashModel.Arith.CauseLemmas
+import YashModel.Arith.UnicodeLemmas
+import YashModel.Arith.TableLemmas
 namespace YashModel.Arith
 open YashModel.Generated.ArithTables
 
@@ -672,5 +675,150 @@ example : expandVariable ['x'] [(['x'], "010".toList)] = .ok 8 ∧
     parseConstant "010".toList = some 8 ∧ parseConstant "0x10".toList = some 16 ∧
     (∀ ch ∈ "0x10".toList, isTermChar ch = true) ∧ Env.get [(['x'], "0x10".toList)] ['x'] = some "0x10".toList := by
   decide +kernel
+
+/-! ## wave 3: the cause of an error, non-ASCII identifiers -/
+
+/-- ☆ "reports an error" at full strength: for every binary operator and all i64 operands `binary_result` IS
+    the Spec — the exact value when `Spec.why` finds no reason, and otherwise the error that names the reason
+    (`DivisionByZero` for `/ %` by 0, `LeftShiftingNegative`, `ReverseShifting` for a negative count,
+    `Overflow` for everything unrepresentable incl. `MIN / -1`, `MIN % -1` and counts ≥ 64), with the checks in
+    the order of C 6.5.5/6.5.7 (`-1 << -1` is a left shift of a negative number, not a negative count).
+    `Spec.why` has no reason exactly when C defines a representable value. -/
+theorem failing_operation_is_named (op : BinaryOperator) (l r : Int) (hl : InRange l) (hr : InRange r) :
+    binaryResult op l r =
+      (match Spec.why (Spec.arithOf op) l r with
+        | none => .ok (Spec.exactOp op l r)
+        | some q => .error (reasonErr q)) ∧
+    (Spec.why (Spec.arithOf op) l r = none ↔
+      (Spec.definedOp op l r ∧ Spec.InRange (Spec.exactOp op l r))) :=
+  ⟨binaryResult_why op l r hl hr, why_none_iff _ l r⟩
+
+/-- every reason occurs, at the operands the property names; the order of the checks is visible at `-1 << -1`
+    and `1 << 64` vs `1 << -1` -/
+example :
+    binaryResult .Divide 1 0 = .error .divisionByZero ∧ binaryResult .RemainderAssign 1 0 = .error .divisionByZero ∧
+    binaryResult .Divide (-9223372036854775808) (-1) = .error .overflow ∧
+    binaryResult .Remainder (-9223372036854775808) (-1) = .error .overflow ∧
+    binaryResult .ShiftLeft (-1) (-1) = .error .leftShiftingNegative ∧
+    binaryResult .ShiftLeft 1 (-1) = .error .reverseShifting ∧ binaryResult .ShiftRight (-1) (-1) = .error .reverseShifting ∧
+    binaryResult .ShiftLeft 1 64 = .error .overflow ∧ binaryResult .ShiftLeft 1 63 = .error .overflow ∧
+    binaryResult .ShiftRight 1 4294967296 = .error .overflow ∧
+    binaryResult .Add 9223372036854775807 1 = .error .overflow ∧ binaryResult .ShiftLeft 1 62 = .ok 4611686018427387904 := by
+  decide
+
+/-- ☆ the Unicode tokenizer with no extra alphanumerics IS the tokenizer of `Model.lean` (so every theorem above
+    is a theorem about `evalStrU []`), token by token and for the whole evaluation incl. the cause. -/
+theorem unicode_tokenizer_is_the_model (src : List Char) (env : Env) (f : Nat) (portable : Bool) :
+    nextTokenU [] src = nextToken src ∧ tokenizeU [] f src = tokenize f src ∧
+    evalStrU [] src env = evalStr src env ∧ evalStrPortableU [] src env = evalStrPortable src env ∧
+    evalStrCauseU [] portable src env = evalStrCause portable src env := by
+  refine ⟨nextTokenU_nil src, tokenizeU_nil f src, evalStrU_nil src env, evalStrPortableU_nil src env, ?_⟩
+  unfold evalStrCauseU evalStrCause
+  rw [evalStrU_nil, evalStrPortableU_nil]
+
+/-- ☆ "no expression text, however malformed, makes the shell panic" for texts with non-ASCII identifiers:
+    whatever set of characters `char::is_alphanumeric` accepts (`extra` is arbitrary), the evaluation returns a
+    value or an error — no failed `expect`, no slice out of range, and none of the model's fuels runs out (the
+    tokenizer's fuel is irrelevant above the text length). -/
+theorem evalStrU_never_panics (extra : List Char) (src : List Char) (env : Env) :
+    evalStrU extra src env ≠ .panic ∧ evalStrU extra src env ≠ .fuel ∧
+    evalStrU extra src env ≠ .syntaxError .fuel ∧
+    (∀ g, src.length < g → tokenizeU extra (src.length + 1) src = tokenizeU extra g src) :=
+  evalStrU_returns extra src env
+
+/-- the theorem is not about the ASCII case only: `é` is a variable, `٣` (an alphanumeric that is no ASCII digit)
+    too, `1é` is an invalid constant, `é€` stops at a character that starts nothing -/
+example :
+    evalStrU ['é'] "é=3, é".toList [] = .syntaxError .tokenError ∧
+    evalStrU ['é'] "é = 3".toList [] = .value 3 [(['é'], ['3'])] ∧
+    evalStrU ['٣'] "٣+1".toList [(['٣'], ['4'])] = .value 5 [(['٣'], ['4'])] ∧
+    evalStrCauseU ['é'] false "1é".toList [] = some (.token .invalidNumericConstant) ∧
+    evalStrCauseU ['é'] false "é€".toList [] = some (.token .invalidCharacter) ∧
+    evalStrCauseU [] false "é".toList [] = some (.token .invalidCharacter) := by
+  decide +kernel
+
+/-- ☆ `SyntaxError::TokenError` always carries a kind, and the kind says what is wrong at the place where the
+    tokenizer stopped: the parser answers `TokenError` only if the token sequence holds the tokenizer's error
+    (then `firstTokenErrU` names it — the `none` arm of `outcomeCause` is dead); and an error token means:
+    after the white space the text starts with a character that begins neither an operator nor a term
+    (`InvalidCharacter`), or with an ASCII digit whose maximal term is not a C constant
+    (`InvalidNumericConstant`). -/
+theorem token_error_has_a_kind (extra : List Char) (src : List Char) :
+    (parseU extra src = .error .tokenError → ∃ k, firstTokenErrU extra (src.length + 1) src = some k) ∧
+    (∀ rest, nextTokenU extra src = some (.err, rest) →
+      rest = src.dropWhile isWhitespace ∧ findOp rest = none ∧ ∃ c, rest.head? = some c ∧
+        ((nextTokenErrU extra src = .invalidCharacter ∧ isTermCharU extra c = false) ∨
+         (nextTokenErrU extra src = .invalidNumericConstant ∧ isAsciiDigit c = true ∧
+            parseConstant (rest.takeWhile (isTermCharU extra)) = none))) :=
+  parseU_tokerr_kind extra src
+
+/-- ☆ every failing evaluation has exactly one cause and every cause is a real variant of the code's
+    `ErrorCause`: the cause is absent exactly when the evaluation returns a value; it is `PortabilityError`
+    exactly when the portability check rejects; it is never the kind-less token error nor the model's fuel. -/
+theorem every_error_has_a_cause (extra : List Char) (portable : Bool) (src : List Char) (env : Env) :
+    (evalStrCauseU extra portable src env = none ↔
+      ∃ v env', (if portable then evalStrPortableU extra src env else some (evalStrU extra src env)) =
+        some (.value v env')) ∧
+    (evalStrCauseU extra portable src env = some .portability ↔
+      (portable = true ∧ evalStrPortableU extra src env = none)) ∧
+    evalStrCauseU extra portable src env ≠ some (.syntax .tokenError) ∧
+    evalStrCauseU extra portable src env ≠ some (.syntax .fuel) := by
+  obtain ⟨h1, h2, h3, h4⟩ := outcomeCause_evalStrU extra src env
+  unfold evalStrCauseU
+  cases portable with
+  | false => simpa using ⟨h1, h2, h3, h4⟩
+  | true =>
+    simp only [if_true]
+    cases hq : evalStrPortableU extra src env with
+    | none => simp
+    | some o =>
+      have ho := evalStrPortableU_some extra src env o hq
+      subst ho
+      simpa using ⟨h1, h2, h3, h4⟩
+
+/-! ## wave 3: the arm lists and constants of eval.rs / token.rs, re-extracted on every run -/
+
+open YashModel.Generated.ArithEvalTables in
+/-- ☆ what `Model.lean` transcribes by hand from eval.rs / token.rs is what the extractor reads from the sources
+    on every run (tools/tables/arith.py → `Generated/ArithEvalTables.lean`; arm bodies are recognised by their
+    text, an unknown body stops the run): the arm of `apply_binary` every operator takes; the operation every
+    arm of `binary_result` computes (so a plain operator and its compound form compute the same operation, and
+    it is the operation the Spec's `arithOf` names); the width of a shift count; the radix rules of constants
+    and of variable values; the characters of a term; the variants of the error enums. -/
+theorem eval_tables_are_the_codes :
+    (∀ op, binKind op = armKind (applyBinaryArm op)) ∧
+    (∀ op l r, binaryChecked op l r = opChecked (binaryResultOp op) l r) ∧
+    (∀ op, Spec.arithOf op = opArith (binaryResultOp op)) ∧
+    (∀ v, requireNonNegative v =
+      if v < 0 then .error .reverseShifting
+      else if v ≥ 2 ^ shiftCountBits then .error .overflow else .ok v.toNat) ∧
+    (∀ m, radixSplit m = applyRadixRules valueRadixRules valueDefaultRadix m) ∧
+    (∀ t, parseConstant t =
+      fromStrRadix (applyRadixRules constantRadixRules constantDefaultRadix t).1
+        (applyRadixRules constantRadixRules constantDefaultRadix t).2) ∧
+    (∀ extra c, isTermCharU extra c = (isAsciiAlnum c || termExtraChars.contains c || extra.contains c)) ∧
+    ([EvalErr.invalidVariableValue, .overflow, .divisionByZero, .leftShiftingNegative, .reverseShifting,
+        .assignmentToValue, .getVariableError, .assignVariableError].map EvalErr.codeName = evalErrorVariants) ∧
+    ([SynErr.tokenError, .incompleteExpression, .missingOperator, .unclosedParenthesis, .questionWithoutColon,
+        .colonWithoutQuestion, .invalidOperator].map SynErr.codeName = syntaxErrorVariants) ∧
+    ([TokErr.invalidNumericConstant, .invalidCharacter].map TokErr.codeName = tokenErrorVariants) ∧
+    portabilityErrorVariants = ["IncrementDecrement"] := by
+  refine ⟨fun op => by cases op <;> rfl, fun op l r => by cases op <;> rfl, fun op => by cases op <;> rfl,
+    requireNonNegative_bits, radixSplit_eq_rules, parseConstant_eq_rules, isTermCharU_extra, ?_, ?_, ?_, ?_⟩ <;> decide
+
+open YashModel.Generated.ArithEvalTables in
+/-- ☆ `convert_error_cause` (the shell's glue) has one arm for every leaf variant of `yash_arith::ErrorCause`
+    — the two token errors, the other syntax errors, the portability error, every evaluation error, in the
+    order of the enums — so its fallback arm is dead with this yash-arith; and distinct causes become distinct
+    causes of the shell (nothing is merged, nothing becomes `Unrecognized`). -/
+theorem convert_error_cause_is_faithful :
+    convertErrorCause.map (fun e => (e.1, e.2.1)) =
+      tokenErrorVariants.map (fun v => ("SyntaxError", v)) ++
+      (syntaxErrorVariants.filter (· ≠ "TokenError")).map (fun v => ("SyntaxError", v)) ++
+      portabilityErrorVariants.map (fun v => ("PortabilityError", v)) ++
+      evalErrorVariants.map (fun v => ("EvalError", v)) ∧
+    (convertErrorCause.map (·.2.2)).Nodup ∧
+    ("ArithError." ++ convertErrorCauseFallback) ∉ convertErrorCause.map (·.2.2) := by
+  decide
 
 end YashModel.Arith
